@@ -71,11 +71,11 @@ class Run:
         self.log.write(" ".join(str(x) for x in a) + "\n"); self.log.flush()
 
     # ------------------------------------------------------------------ T1: trace programs
-    def build_trace(self, tu, module, flags=(), std="gnu++17", extra_env=None, trials=None):
+    def build_trace(self, tu, module, flags=(), std="gnu++17", extra_env=None, trials=None, inc_first=()):
         """compile tools/trace/<tu>.cpp against /repo, run it -> <dir>/<module>.v ; returns stats dict"""
         exe = os.path.join(self.dir, module + ".bin")
         src = os.path.join(TRACE, tu + ".cpp")
-        cmd = [CXX, "-std=" + std, "-O1", "-ffp-contract=off", "-w", "-I" + os.path.join(TRACE, "shim"), "-I" + TRACE, "-I" + REPO] + list(flags) + [src, "-o", exe]
+        cmd = [CXX, "-std=" + std, "-O1", "-ffp-contract=off", "-w", "-I" + os.path.join(TRACE, "shim"), "-I" + TRACE] + ["-I" + d for d in inc_first] + ["-I" + REPO] + list(flags) + [src, "-o", exe]
         rc, out, err, dt = sh(cmd, timeout=900)
         self.logonly("== compile", " ".join(cmd), "rc=%d %.1fs" % (rc, dt))
         if rc != 0:
